@@ -26,6 +26,7 @@ theorem children_key_facts {h : Heap} (hg : GoodDicts h) (hnn : NonNegKeys h) {r
     | int j => simp [dkeyToPKey, PKey.asInt] at hi; subst hi; exact hnn r es hn _ hmem j rfl
     | idx j => simp [dkeyToPKey, PKey.asInt] at hi; subst hi; exact hnn r es hn _ hmem j rfl
     | lit id v => simp [dkeyToPKey, PKey.asInt] at hi
+    | obj id => simp [dkeyToPKey, PKey.asInt] at hi
   | list rs =>
     obtain ⟨i, _, rfl⟩ := mem_seqChildren.mp hm
     intro j hj; simp [PKey.asInt] at hj; omega
